@@ -126,7 +126,7 @@ func (n *WNode) Materialise(dir string) error {
 				return err
 			}
 		} else {
-			if err := os.WriteFile(p, k.Content.Bytes(), 0o644); err != nil {
+			if err := writeContent(p, k.Content); err != nil {
 				return err
 			}
 			t := time.Unix(k.MTime, 0)
@@ -137,6 +137,68 @@ func (n *WNode) Materialise(dir string) error {
 	}
 	t := time.Unix(n.MTime, 0)
 	return os.Chtimes(dir, t, t)
+}
+
+// writeContent writes a file; long zero segments become holes (sparse files of several GiB)
+func writeContent(p string, c Content) error {
+	f, err := os.Create(p)
+	if err != nil {
+		return err
+	}
+	defer f.Close()
+	var pos int64
+	for _, s := range c {
+		if s.Kind == 'z' && s.N > 1<<20 {
+			pos += int64(s.N)
+			if _, err := f.Seek(pos, 0); err != nil {
+				return err
+			}
+			continue
+		}
+		b := Content{s}.Bytes()
+		if _, err := f.Write(b); err != nil {
+			return err
+		}
+		pos += int64(len(b))
+	}
+	return f.Truncate(pos)
+}
+
+// Size of the content in bytes
+func (c Content) Size() int64 {
+	var n int64
+	for _, s := range c {
+		if s.Kind == 'h' {
+			n += int64(len(s.Data))
+		} else {
+			n += int64(s.N)
+		}
+	}
+	return n
+}
+
+// At returns byte i of the content without materialising it
+func (c Content) At(i int64) byte {
+	var base int64
+	for _, s := range c {
+		n := int64(s.N)
+		if s.Kind == 'h' {
+			n = int64(len(s.Data))
+		}
+		if i < base+n {
+			j := i - base
+			switch s.Kind {
+			case 'h':
+				return s.Data[j]
+			case 'g':
+				return patternByte(s.A, int(j))
+			default:
+				return 0
+			}
+		}
+		base += n
+	}
+	return 0
 }
 
 // Walk visits all nodes with their path relative to the root node ("" for the root).
